@@ -74,7 +74,10 @@ def run_case(case, ctx):
 				classes.add(f'chunksize={plan["chunksize"]}')
 				evals += 1
 				continue
+			env = None
 			args = ['-d', W.dir, 'query', '-o', out, '-f', plan['fmt']]
+			if plan.get('db_via_env'):
+				args, env = args[2:], {'GAMBIT_DB_PATH': W.dir}
 			if chan == 'sig':
 				if plan['int_ids']:
 					ids = [70 + 3 * i for i in range(len(order))]
@@ -108,7 +111,7 @@ def run_case(case, ctx):
 			if plan['cores'] is not None:
 				args += ['-c', str(plan['cores'])]
 			args += ['--progress' if plan['progress'] else '--no-progress']
-			res = run_cli(args)
+			res = run_cli(args, env=env)
 			if res.exit_code != 0:
 				raise Violation('command_failed', f'{where}: exit {res.exit_code}: {res.stderr[-300:]} {res.exception!r}', case)
 			evals += 1
@@ -187,6 +190,7 @@ def gen_case(draw, tier):
 			'fmt': draw(st.sampled_from(['csv', 'json', 'archive', 'csv'])),
 			'int_ids': draw(st.booleans()),
 			'gz_members': draw(st.sampled_from([1, 2, 3])),
+			'db_via_env': draw(st.sampled_from([False, False, True])),
 			'chunksize': draw(st.sampled_from([1000, None, 1, 2, 'n+1'])),
 		})
 	return {'kind': 'plans', 'world': w, 'plans': plans}
